@@ -318,7 +318,12 @@ class TBRMatchedMarkets:
     budget_range = self.parameters.budget_range
 
     # Do not store patterns when we have the last treatment pattern size.
-    skip_this_trt_group_size = list(self.treatment_group_size_range()).pop()
+    treatment_group_sizes = list(self.treatment_group_size_range())
+    if not treatment_group_sizes:
+      # No admissible treatment group size: there are no feasible designs.
+      self._search_results = heapdict.HeapDict(size=self.parameters.n_designs)
+      return self.search_results()
+    skip_this_trt_group_size = treatment_group_sizes.pop()
     skip_treatment_geo_patterns = []
 
     results = heapdict.HeapDict(size=self.parameters.n_designs)
